@@ -2,7 +2,9 @@
   THE MEMOISED SEARCH NEVER LOSES A REPORT, part 5: frames of the (field map, fragment, flag) memo - every search
   function only adds to it; `_conflicts_between_fields_and_fragment` keeps "every compared name is undefined or has its
   triple in the memo" (`CmpOK`) - and the postcondition of `_conflicts_between_fields_and_fragment` WITH the memo: a hit
-  returns at once, and is covered; a miss inserts the triple, whose closure (`FOblM`) the comparison then establishes.
+  returns at once, and is covered; a miss inserts the triple, whose closure (`FOblM`) the comparison then establishes
+  (or, when the fragment's body is the selection set itself - `field_map is fragment_field_map` - nothing: the guard of
+  `FOblM`; no acyclicity / `Apart` hypothesis anywhere).
 -/
 import PyGqlModel.Lemmas.ValidateOverlapMPost4
 namespace PyGql.Validate
